@@ -356,7 +356,7 @@ func proofOracle(t *iavl.ImmutableTree, p *ics23.CommitmentProof, key []byte, ot
 			}
 		}
 	}
-	return fmt.Sprintf("v=%d neg=%d", pos, neg)
+	return fmt.Sprintf("v=%d neg=%d root=%s", pos, neg, enc(root))
 }
 
 // ---------- read operations on an immutable tree ----------
@@ -980,6 +980,18 @@ func main() {
 		for _, l := range iavl.VerifFacts() {
 			fmt.Println(l)
 		}
+		// the proof specification of the linked ics23 module (Model/Ics23.lean is written against it)
+		sp := ics23.IavlSpec
+		fmt.Printf("ics23MinPrefixLength=%d\n", sp.InnerSpec.MinPrefixLength)
+		fmt.Printf("ics23MaxPrefixLength=%d\n", sp.InnerSpec.MaxPrefixLength)
+		fmt.Printf("ics23ChildSize=%d\n", sp.InnerSpec.ChildSize)
+		fmt.Printf("ics23ChildOrderLen=%d\n", len(sp.InnerSpec.ChildOrder))
+		fmt.Printf("ics23EmptyChildLen=%d\n", len(sp.InnerSpec.EmptyChild))
+		fmt.Printf("ics23LeafPrefixLen=%d\n", len(sp.LeafSpec.Prefix))
+		fmt.Printf("ics23LeafPrefixByte=%d\n", sp.LeafSpec.Prefix[0])
+		fmt.Printf("ics23MaxDepth=%d\n", sp.MaxDepth)
+		fmt.Printf("ics23MinDepth=%d\n", sp.MinDepth)
+		fmt.Printf("ics23PrehashKeyBeforeComparison=%d\n", map[bool]int{false: 0, true: 1}[sp.PrehashKeyBeforeComparison])
 	case "exec":
 		runExec(os.Args[2])
 	case "kv":
